@@ -704,8 +704,11 @@ hwloc_disc_component_force_enable(struct hwloc_topology *topology,
   if (backend) {
     int err;
     backend->envvar_forced = envvar_forced;
-    if (topology->backends)
+    if (topology->backends) {
       hwloc_backends_disable_all(topology);
+      /* this backend was allocated while the previous backends still excluded some phases */
+      backend->phases = comp->phases;
+    }
     err = hwloc_backend_enable(backend);
 
     if (comp->phases == HWLOC_DISC_PHASE_GLOBAL) {
